@@ -292,3 +292,9 @@ for _pid in ("C01", "C02", "C03", "C04", "C05"):
 for _pid, _comps in (("C05", ["C14"]), ("C03", ["C14"]), ("C07", ["C14"]), ("C15", ["C14"]),
                      ("C13", ["C18"]), ("C04", ["C11"]), ("C09", ["C12"])):
     SPECS[_pid]["components"] = _comps
+
+# C08: the read-layer trace extraction recognises reads released by an acknowledgement counted for
+# a re-recorded duplicate request (known finding); the read_index monitor and the scripted scenario
+# run on every check
+SPECS["C08"]["trace_findings"] = ["stale-read-by-duplicates"]
+SPECS["C08"]["always_monitor"] = True
